@@ -88,7 +88,7 @@ def r_child_abc(ck: Checker, rule: str = "R-PRESENCE") -> None:
                 names = {x.id for x in ast.walk(c.args[1]) if isinstance(x, ast.Name)} | {x.attr for x in ast.walk(c.args[1]) if isinstance(x, ast.Attribute)}
                 if names & ABC_NAMES:
                     n += 1
-                    ck.violation(rule, f, c, what, construct=f"{f.qualname}: {norm(c)[:60]} decides how a child value is handled (a node class may satisfy this ABC)")
+                    ck.violation(rule, f, c, what, positive=True, construct=f"{f.qualname}: {norm(c)[:60]} decides how a child value is handled (a node class may satisfy this ABC)")
                     return
     ck.holds(rule, ("src/pyoak", "node.py, visitor.py, tree.py"), None, what)
     # `children` is the list of get_child_nodes()
@@ -704,7 +704,7 @@ def r_props_dict(ck: Checker, rule: str = "R-ENUM-SHAPE") -> None:
         if g.iter.args or g.iter.keywords:
             raise Unsupported(f"to_properties_dict calls get_properties with arguments: {norm(g.iter)[:60]}", f.node)
         if g.ifs:
-            ck.violation(rule, f, comps[0], what, construct=f"to_properties_dict: records are dropped unless {norm(g.ifs[0])[:60]}")
+            ck.violation(rule, f, comps[0], what, positive=True, construct=f"to_properties_dict: records are dropped unless {norm(g.ifs[0])[:60]}")
             return
         if not (isinstance(g.target, ast.Tuple) and len(g.target.elts) == 2):
             raise Unsupported("to_properties_dict: record unpacking", f.node)
